@@ -2,49 +2,61 @@
    harness ran against mta.Accumulator, report the scripts on which an
    observation differs.
 
-   Hashes: the harness records every (preimage, digest) pair of
+   Hashes.  The harness records every (preimage, digest) pair of
    crypto.SHA3Sum256 that the implementation computed (bucket writes, in-memory
-   node dump, Verify rounds); the model runs with that table as its hash
-   function and yields a sentinel for a preimage the implementation never
-   hashed (which then differs from every observed hash).
-   Observed hashes are written as indices into [pool]. *)
-From Coq Require Import FMapPositive.
+   node dump, Verify rounds) and checks each against x/crypto/sha3; the model
+   runs with that table as its hash function and yields a sentinel for a
+   preimage the implementation never hashed (which differs from every observed
+   hash).  The model only concatenates, compares and measures hashes, so in
+   well-formed scripts (all hashes 32 bytes long) the harness renames every
+   distinct hash value to a 32-byte token [tok id] (an injective renaming) and
+   prints ids; scripts with hashes of other lengths carry the real bytes in
+   [pool].  Numbers are primitive integers only because their literals are
+   cheap to read; they are converted to N before the model sees them. *)
+From Coq Require Import FMapPositive Uint63.
 From Goloop Require Import lib.Bytes lib.BytesMap Model_Mta.
 Open Scope N_scope.
 
-Inductive tent :=
-| TB (l r d : N)                 (* H (pool l ++ pool r) = pool d *)
-| TD (data : bytes) (d : N)      (* H data = pool d *)
-| TR (pre dig : bytes).          (* H pre = dig *)
+Definition n_of (i : int) : N := Z.to_N (Uint63.to_Z i).
+Definition bytes_of (l : list int) : bytes := map n_of l.
 
-(* a witness element is 2 * pool index + (1 if Right) *)
-Inductive qres := QOk (w : list N) (v : N) | QErr (e : N).
+Inductive tent :=
+| TB (l r d : int)               (* H (hash l ++ hash r) = hash d *)
+| TR (pre : list int) (d : int). (* H pre = hash d *)
+
+(* a witness element is 2 * hash id + (1 if Right).
+   QD s fresh v: the witness is fresh ++ skipn s (witness of the previous query
+   of the same SQueryAll), Verify class v *)
+Inductive qobs := QD (s : int) (fresh : list int) (v : int) | QE (e : int).
 
 Inductive sop :=
-| SAdd (it : item) (w : list N) (v : N)
+| SAddH (h : int) (w : list int) (v : int)          (* AddHash (hash h) *)
+| SAddD (d : list int) (w : list int) (v : int)     (* AddData d *)
 | SFlush
-| SFlushRecover (roots : list (option N)) (len : N)
-| SQueryAll (obs : list qres)
-| SQuery (idx : N) (obs : qres)
-| SVerify (ws : list (bool * bytes)) (h : bytes) (v : N).
+| SFlushRecover (roots : list int) (len : int)      (* 0 = empty slot, id + 1 *)
+| SQueryAll (obs : list qobs)
+| SQuery (idx : int) (obs : qobs)
+| SVerify (ws : list int) (h : int) (v : int).
 
-Inductive case := Case (pool : list bytes) (tbl : list tent) (ops : list sop).
+Inductive case := Case (pool : list (list int)) (tbl : list tent) (ops : list sop).
 
 Definition pmap := PositiveMap.t bytes.
-Fixpoint pool_from (i : N) (l : list bytes) (m : pmap) : pmap :=
+Fixpoint pool_from (i : N) (l : list (list int)) (m : pmap) : pmap :=
   match l with
   | [] => m
-  | b :: r => pool_from (i + 1) r (PositiveMap.add (N.succ_pos i) b m)
+  | b :: r => pool_from (i + 1) r (PositiveMap.add (N.succ_pos i) (bytes_of b) m)
   end.
-Definition pool_get (p : pmap) (i : N) : option bytes := PositiveMap.find (N.succ_pos i) p.
-Definition pool_get' (p : pmap) (i : N) : bytes :=
-  match pool_get p i with Some b => b | None => [257] end.
+
+Definition tok (i : N) : bytes :=
+  (i / 65536) mod 256 :: (i / 256) mod 256 :: i mod 256 :: repeat 255 29.
+
+Definition hash_of (p : pmap) (i : N) : bytes :=
+  match PositiveMap.find (N.succ_pos i) p with Some b => b | None => tok i end.
 
 Definition tbl_add (p : pmap) (m : bmap bytes) (e : tent) : bmap bytes :=
   match e with
-  | TB l r d => bm_set (pool_get' p l ++ pool_get' p r) (pool_get' p d) m
-  | TD data d => bm_set data (pool_get' p d) m
-  | TR pre dig => bm_set pre dig m
+  | TB l r d => bm_set (hash_of p (n_of l) ++ hash_of p (n_of r)) (hash_of p (n_of d)) m
+  | TR pre d => bm_set (bytes_of pre) (hash_of p (n_of d)) m
   end.
 
 Definition Htbl (t : bmap bytes) (x : bytes) : bytes :=
@@ -56,23 +68,31 @@ Definition qclass (e : err) : N :=
   match e with ENotFound => 1 | EPanic => 9 | _ => 2 end.
 Definition vclass (r : result unit) : N := match r with Ok _ => 0 | Err _ => 1 end.
 
-Definition welt_eqb (p : pmap) (w : witness) (o : N) : bool :=
-  Bool.eqb (match w_dir w with Right => true | Left => false end) (N.odd o)
-  && opt_bytes_eqb (pool_get p (N.div2 o)) (Some (w_hash w)).
+Definition welt (p : pmap) (o : int) : witness :=
+  let n := n_of o in mkW (if N.odd n then Right else Left) (hash_of p (N.div2 n)).
 
-Fixpoint wit_eqb (p : pmap) (ws : list witness) (os : list N) : bool :=
-  match ws, os with
-  | [], [] => true
-  | w :: ws', o :: os' => welt_eqb p w o && wit_eqb p ws' os'
+Definition witness_eqb (a b : witness) : bool :=
+  match w_dir a, w_dir b with
+  | Left, Left | Right, Right => bytes_eqb (w_hash a) (w_hash b)
   | _, _ => false
   end.
 
-Fixpoint roots_eqb (p : pmap) (rs : list (option node)) (os : list (option N)) : bool :=
+Fixpoint wit_eqb (ws os : list witness) : bool :=
+  match ws, os with
+  | [], [] => true
+  | w :: ws', o :: os' => witness_eqb w o && wit_eqb ws' os'
+  | _, _ => false
+  end.
+
+Fixpoint roots_eqb (p : pmap) (rs : list (option node)) (os : list int) : bool :=
   match rs, os with
   | [], [] => true
-  | None :: rs', None :: os' => roots_eqb p rs' os'
-  | Some n :: rs', Some o :: os' =>
-      opt_bytes_eqb (pool_get p o) (Some (node_hash n)) && roots_eqb p rs' os'
+  | r :: rs', o :: os' =>
+      let n := n_of o in
+      match r with
+      | None => n =? 0
+      | Some x => negb (n =? 0) && bytes_eqb (node_hash x) (hash_of p (n - 1))
+      end && roots_eqb p rs' os'
   | _, _ => false
   end.
 
@@ -80,56 +100,63 @@ Section Run.
 Variable H : bytes -> bytes.
 Variable p : pmap.
 
-(* run state: accumulator, store, leaf hashes (newest first), all comparisons so far *)
-Record rst := mkR { r_acc : acc; r_store : store; r_leaves : list bytes; r_n : nat; r_ok : bool }.
+(* run state: accumulator, store, leaf hashes (newest first), the previous
+   observed witness of the running SQueryAll, conjunction of all comparisons *)
+Record rst := mkR { r_acc : acc; r_store : store; r_leaves : list bytes; r_n : nat;
+                    r_prev : list witness; r_ok : bool }.
 
 Definition leaf_at (st : rst) (idx : N) : option bytes :=
   let i := N.to_nat idx in
   if Nat.ltb i (r_n st) then nth_error (r_leaves st) (r_n st - 1 - i) else None.
 
-Definition query (st : rst) (idx : N) (o : qres) : rst :=
+Definition query (st : rst) (idx : N) (o : qobs) : rst :=
   let (a', rw) := witness_for (r_store st) (r_acc st) idx in
-  let ok :=
+  let '(ok, prev) :=
     match rw, o with
-    | Ok w, QOk ow v =>
-        wit_eqb p w ow &&
-        match leaf_at st idx with
-        | Some lh => vclass (verify H a' w lh) =? v
-        | None => false
-        end
-    | Err e, QErr c => qclass e =? c
-    | _, _ => false
+    | Ok w, QD s fresh v =>
+        let ow := map (welt p) fresh ++ skipn (N.to_nat (n_of s)) (r_prev st) in
+        (wit_eqb w ow &&
+         match leaf_at st idx with
+         | Some lh => vclass (verify H a' w lh) =? n_of v
+         | None => false
+         end, ow)
+    | Err e, QE c => (qclass e =? n_of c, r_prev st)
+    | _, _ => (false, r_prev st)
     end in
-  mkR a' (r_store st) (r_leaves st) (r_n st) (r_ok st && ok).
+  mkR a' (r_store st) (r_leaves st) (r_n st) prev (r_ok st && ok).
 
-Fixpoint query_all (st : rst) (idx : N) (obs : list qres) : rst :=
+Fixpoint query_all (st : rst) (idx : N) (obs : list qobs) : rst :=
   match obs with
   | [] => st
   | o :: r => query_all (query st idx o) (idx + 1) r
   end.
 
-Definition to_w (x : bool * bytes) : witness := mkW (if fst x then Right else Left) (snd x).
+Definition with_prev (st : rst) (w : list witness) : rst :=
+  mkR (r_acc st) (r_store st) (r_leaves st) (r_n st) w (r_ok st).
+
+Definition do_add (st : rst) (it : item) (ow : list int) (v : int) : rst :=
+  let (a', w) := add H (r_acc st) it in
+  let lh := item_hash H it in
+  mkR a' (r_store st) (lh :: r_leaves st) (S (r_n st)) []
+      (r_ok st && wit_eqb w (map (welt p) ow) && (vclass (verify H a' w lh) =? n_of v)).
 
 Definition rstep (st : rst) (o : sop) : rst :=
   match o with
-  | SAdd it ow v =>
-      let (a', w) := add H (r_acc st) it in
-      let lh := item_hash H it in
-      mkR a' (r_store st) (lh :: r_leaves st) (S (r_n st))
-          (r_ok st && wit_eqb p w ow && (vclass (verify H a' w lh) =? v))
+  | SAddH h ow v => do_add st (IHash (hash_of p (n_of h))) ow v
+  | SAddD d ow v => do_add st (IData (bytes_of d)) ow v
   | SFlush =>
       let (a', s') := flush (r_acc st) (r_store st) in
-      mkR a' s' (r_leaves st) (r_n st) (r_ok st)
+      mkR a' s' (r_leaves st) (r_n st) [] (r_ok st)
   | SFlushRecover oroots olen =>
       let (_, s') := flush (r_acc st) (r_store st) in
       let a' := recover s' in
-      mkR a' s' (r_leaves st) (r_n st)
-          (r_ok st && roots_eqb p (a_roots a') oroots && (a_len a' =? olen))
-  | SQueryAll obs => query_all st 0 obs
-  | SQuery idx o => query st idx o
+      mkR a' s' (r_leaves st) (r_n st) []
+          (r_ok st && roots_eqb p (a_roots a') oroots && (a_len a' =? n_of olen))
+  | SQueryAll obs => query_all (with_prev st []) 0 obs
+  | SQuery idx o => query (with_prev st []) (n_of idx) o
   | SVerify ws h v =>
-      mkR (r_acc st) (r_store st) (r_leaves st) (r_n st)
-          (r_ok st && (vclass (verify H (r_acc st) (map to_w ws) h) =? v))
+      mkR (r_acc st) (r_store st) (r_leaves st) (r_n st) []
+          (r_ok st && (vclass (verify H (r_acc st) (map (welt p) ws) (hash_of p (n_of h))) =? n_of v))
   end.
 End Run.
 
@@ -138,7 +165,7 @@ Definition check (c : case) : bool :=
   | Case pool tbl ops =>
       let p := pool_from 0 pool (PositiveMap.empty _) in
       let t := fold_left (tbl_add p) tbl bm_empty in
-      r_ok (fold_left (rstep (Htbl t) p) ops (mkR acc_empty store_empty [] 0 true))
+      r_ok (fold_left (rstep (Htbl t) p) ops (mkR acc_empty store_empty [] 0 [] true))
   end.
 
 Definition mismatches (l : list case) : list nat := failing check l.
